@@ -263,7 +263,10 @@ class _ConversionVisitor(TreeVisitor[_VisitorResult]):
         ra_value = _get_float_literal_value(ra, node.ra)
         dec_value = _get_float_literal_value(dec, node.dec)
 
-        lon_lat = lsst.sphgeom.LonLat.fromDegrees(ra_value, dec_value)
+        try:
+            lon_lat = lsst.sphgeom.LonLat.fromDegrees(ra_value, dec_value)
+        except ValueError as e:
+            raise InvalidQueryError(f"Invalid coordinates in '{node}': {e}") from None
         return _make_literal(lon_lat)
 
     def visitRangeLiteral(
